@@ -22,7 +22,7 @@ def main():
         text = j["text"].replace("{v}", str(v))
         try:
             if j["kind"] == "dec":
-                r = sf.decoder(text, attribute=bool(fl.get("attribute")))
+                r = sf.decoder(text, attribute=bool(fl.get("attribute")), compatible=bool(fl.get("compatible")))
             else:
                 r = sf.encoder(text, strict=bool(fl.get("strict", True)), attribute=bool(fl.get("attribute")))
             if fl.get("attribute"):
